@@ -210,7 +210,8 @@ INT_OPS = {
     "*": ("II", lambda a, b: ["*", [a, b]]),
     "neg": ("I", lambda a: ["*", [["c", -1], a]]),
     "/": ("I", lambda a: ["/", a, ["c", -1]]),
-    "**": ("I", lambda a: ["**", a, ["c", 2]]),
+    "**": ("I", lambda a: ["**", a, ["c", 3]]),          # exponents 3 and 2: (x**3)**2 = x**6, but x**3**2 = x**9
+    "sq": ("I", lambda a: ["**", a, ["c", 2]]),
     "if": ("BII", lambda c, a, b: ["if", c, a, b]),
     "min": ("II", lambda a, b: ["min", [a, b]]),
     "max": ("II", lambda a, b: ["max", [a, b]]),
